@@ -180,6 +180,57 @@ fn deep_chains(tier: &str) -> Vec<Vec<u8>> {
     outv
 }
 
+/// C19: display of generated items (exact notation), of mutated / truncated ones and of heads with extreme
+/// declared lengths (totality and the size bound).
+#[cfg(all(feature = "alloc", feature = "half"))]
+fn gen_c19(sink: &mut Sink, tier: &str, seed: u64) {
+    use crate::cbgen::*;
+    let mut rng = StdRng::seed_from_u64(seed ^ 0xc19);
+    let n = if tier == "thorough" { 40000 } else { 5000 };
+    // For every position that could start a float (f9 / fa / fb followed by enough bytes) the harness supplies
+    // Rust's `{:e}` of that bit pattern; the specification looks renderings up by (width, bits).
+    let put = |sink: &mut Sink, buf: &[u8], _fl: &[(u8, Vec<u8>)]| {
+        let input = json!({"buf": crate::abs::bytes(buf)});
+        let obs = run_op("display", "fmt", &input);
+        let mut seen = std::collections::BTreeSet::new();
+        let mut fls: Vec<Value> = vec![];
+        for i in 0..buf.len() {
+            let w = match buf[i] { 0xf9 => 2usize, 0xfa => 4, 0xfb => 8, _ => continue };
+            if i + 1 + w > buf.len() { continue }
+            let b = &buf[i + 1..i + 1 + w];
+            if !seen.insert((w, b.to_vec())) { continue }
+            fls.push(json!({"w": w, "bits": crate::abs::bytes(b), "text": crate::abs::bytes(crate::disp::float_text(w as u64, b).as_bytes())}));
+        }
+        sink.put(json!({"fam": "display", "name": "fmt", "in": input, "fl": fls, "obs": obs}));
+    };
+    // every head kind with extreme declared lengths, alone and followed by a little content
+    for major in 2..=5u8 {
+        for arg in [0u64, 1, 23, 24, 255, 256, 65535, 65536, 100000, u32::MAX as u64, u32::MAX as u64 + 1, u64::MAX / 2, u64::MAX - 1, u64::MAX] {
+            for w in [0u8, 1, 2, 4, 8] {
+                if min_width(arg) > w { continue }
+                let mut b = Vec::new(); head(&mut b, major, arg, w);
+                sink.distinct_inputs += 1;
+                put(sink, &b, &[]);
+                let mut c = b.clone(); c.extend_from_slice(&[0x01, 0x61, 0x61]); put(sink, &c, &[]);
+                let mut d = vec![0x9f]; d.extend_from_slice(&b); put(sink, &d, &[]);
+                let mut e = vec![0xc1]; e.extend_from_slice(&b); e.push(0x00); put(sink, &e, &[]);
+            }
+        }
+    }
+    for i in 0..n {
+        let o = Opts { max_depth: 6, max_nodes: if i % 10 == 0 { 120 } else { 20 }, bad_utf8: i % 9 == 0, ..Opts::default() };
+        let it = gen_item(&mut rng, &o);
+        let fl = FLOATS.with(|f| f.borrow().clone());
+        sink.distinct_inputs += 1;
+        put(sink, &it, &fl);
+        let cut = rng.gen_range(0..it.len());
+        put(sink, &it[..cut], &[]);
+        let m = mutate(&mut rng, &it);
+        put(sink, &m, &[]);
+        if i % 4 == 0 { let r: Vec<u8> = (0..rng.gen_range(1..12)).map(|_| rng.gen()).collect(); put(sink, &r, &[]); }
+    }
+}
+
 /// C13: token sequences of generated items encoded into every sink kind at every capacity 0..=len+1.
 #[cfg(all(feature = "std", feature = "half"))]
 fn gen_c13(sink: &mut Sink, tier: &str, seed: u64) {
@@ -246,6 +297,8 @@ pub fn cmd_gen(args: &[String]) -> i32 {
     match fam.as_str() {
         "c05" => gen_c05(&mut sink, tier, seed),
         "c06" => gen_c06(&mut sink, tier, seed),
+        #[cfg(all(feature = "alloc", feature = "half"))]
+        "c19" => gen_c19(&mut sink, tier, seed),
         #[cfg(all(feature = "std", feature = "half"))]
         "c13" => gen_c13(&mut sink, tier, seed),
         _ => { eprintln!("unknown family {}", fam); return 2 }
